@@ -321,10 +321,11 @@ def check(prop, tier, only=None, keep=False, jobs=None, calibrate=False):
     if calibrate:
         h_timeout = 700  # registered thorough harnesses get >= 2x headroom
     # per-cbmc resident-set cap: jobs * cap stays below the 62 GB of the sandbox
-    mem = max(3.0, 52.0 / jobs)
+    mem = float(os.environ.get("VERIF_MEM_GB", 0) or max(3.0, 52.0 / jobs))
 
     builds = cfg.get("builds", [""])  # pilota feature sets
     all_res, inconclusive, violations, knowns, samples = {}, [], [], [], []
+    known_only = set()  # harnesses whose only failed checks are listed known findings
     replays_done = 0
     export_meta = {}
     logdir = os.path.join(SCRATCH_ROOT, "logs")
@@ -380,16 +381,23 @@ def check(prop, tier, only=None, keep=False, jobs=None, calibrate=False):
                 for c, k in zip(fails, kinds):
                     if k != "property":
                         inconclusive.append(dict(harness=hid, why="%s: %s" % (k, c.get("description"))))
-                if r["covers_unsat"]:
-                    inconclusive.append(dict(harness=hid, why="vacuity: cover property not satisfiable: %s" % r["covers_unsat"][0].get("description")))
                 pfails = [c for c, k in zip(fails, kinds) if k == "property"]
                 unknown = []
+                has_known = False
                 for c in pfails:
                     k = match_known(known, prop, hid, c)
                     if k:
                         knowns.append((k, hid, c))
+                        has_known = True
+                        known_only.add(hid)
                     else:
                         unknown.append(c)
+                if unknown:
+                    known_only.discard(hid)
+                # a failed assertion is assumed afterwards, so covers behind a KNOWN finding (or
+                # behind a violation that is reported anyway) are expectedly unreachable
+                if r["covers_unsat"] and not has_known and not unknown:
+                    inconclusive.append(dict(harness=hid, why="vacuity: cover property not satisfiable: %s" % r["covers_unsat"][0].get("description")))
                 if unknown:
                     rep, rpath, note = replay(prop, hid, hk, tgt, logf)
                     replays_done += 1
@@ -424,7 +432,8 @@ def check(prop, tier, only=None, keep=False, jobs=None, calibrate=False):
     log("%s %s: %d harnesses, %d verified, %d known-finding checks, %d violations, %d inconclusive, %.0fs (log %s)"
         % (prop, tier, len(all_res), n_ok, len(knowns), len(violations), len(inconclusive), wall, logf))
     if calibrate:
-        good = sorted(h for h, r in all_res.items() if r["status"] == "Success" and not r["undetermined"] and not r["covers_unsat"]
+        good = sorted(h for h, r in all_res.items()
+                      if ((r["status"] == "Success" and not r["covers_unsat"]) or h in known_only) and not r["undetermined"]
                       and not any(i["harness"] == h for i in inconclusive))
         os.makedirs(os.path.dirname(okfile), exist_ok=True)
         open(okfile, "w").write("# thorough-only harnesses of %s that were conclusive on the unchanged tree (bin/check %s --tier thorough --calibrate)\n" % (prop, prop) + "\n".join(good) + "\n")
